@@ -6,6 +6,16 @@ ROOT = os.path.dirname(os.path.dirname(os.path.abspath(__file__)))
 
 # id -> (level category, technique, level text, level note, design ref)
 CHECKS = {
+    "C01": ("exploration",
+            "generated-scenario search in a wire lab (real worker thread, scripted raw-socket peers) with an exact content oracle",
+            "Each scenario drives one keep-alive client connection through a live worker's HTTP listener to an HTTP/1.1 mock backend: 1..4 POST requests with request and response bodies of boundary-biased sizes (around buffer_size 16393, 16384, 32768, 65535/65536, up to 256 KiB; thorough 6 MiB) of keyed content, framed Content-Length / chunked with generated chunk sizes / close-delimited, under four generated I/O scripts (dribbles, token splits, pauses, read stalls, bounded socket buffers). Every body must arrive byte-identical and every message end cleanly; each request reaches the backend exactly once. 16 OS-process labs; a failure is re-run on a fresh worker and reported only if it reproduces. Only the HTTP/1.1 -> HTTP/1.1 pair is built so far.",
+            "HTTP/2 frontends (TLS) and h2c backends, concurrent streams, trailers and DATA padding are not exercised yet; kernel segmentation and epoll wake-up order are shaped, not owned; splice off.",
+            "DESIGN.md §4 C01"),
+    "C09": ("fault_enumeration",
+            "generated fault-script search over a real CommandHub with scripted fake workers and real unix-socket clients",
+            "Each scenario runs the real main-process CommandHub in a thread (worker_timeout 1 s) with 1..3 fake workers registered through register_worker and 1..3 real clients on the command socket; per (worker, request) a generated behaviour (ok, failure, silent, channel closed, duplicate ok, late ok, processing then ok, processing only, unknown id) with generated arrival delays, over mutating, query, status, load-state and stop verbs. Oracle: exactly one final answer per request within the deadline, never another client's, OK iff every worker alive at dispatch answered successfully, the hub thread stays alive, answers a final Status and stops.",
+            "Fake workers stand in for forked worker processes (their pids are harmless sleep children); requests are sent sequentially per client connection; upgrade_worker / automatic restart are not reached; two shapes (LoadState and SoftStop without timeout) are known findings excluded by construction and reproduced from regression files.",
+            "DESIGN.md §4 C09"),
     "C12": ("exploration",
             "stateful property-based testing (proptest) of BackendMap/BackendList against an eligibility model; set-membership oracle for selections, exact oracle for counters and retirement",
             "Generated histories (add/remove/re-add, in-place updates, health probes with thresholds, retry failures/successes, forced down / back-off / expiry through the verif hooks, policy changes over the six policies, open/close, keyed and sticky selections) on the real BackendMap; every selection must land in the admissible set (eligible primaries, else eligible backups, else the documented fail-open set), a valid sticky cookie wins iff its backend qualifies, HRW and Maglev keep one key on one backend while the eligible set is unchanged, connection/request counts equal the model after every op and return to zero, removed backends drain then retire. Bounded exploration.",
